@@ -34,6 +34,12 @@ def make_oracle(chk, counter):
                 counter["literal_loss_differs_before_discard"] += 1
                 if chk.known.match("C19", LITERAL):
                     out.append(e)
+            elif e[0] == "replay_ask0_raises":
+                # the unchanged runner logs ("ask", 0) for a visit without a free slot; AverageLearner.ask(0)
+                # raises.  Counted; a finding only when listed in known_findings.json.
+                counter["ask0_entry_breaks_replay"] = counter.get("ask0_entry_breaks_replay", 0) + 1
+                if chk.known.match("C19", "C19:replay_ask0_raises"):
+                    out.append(e)
             else:
                 out.append(e)
         return out
@@ -56,8 +62,12 @@ def run(chk: Check) -> int:
         if col.enough():
             break
         rng = chk.rng("case", k)
-        lk = rng.choice(["mock", "mock", "Learner1D", "Learner1D", "SequenceLearner", "AverageLearner"])
-        spec = I.random_spec(rng, faults=rng.random() < 0.1, cancel=True, learner=lk, log=True, big=not chk.quick)
+        lk = rng.choice(["mock", "Learner1D", "Learner1D", "SequenceLearner", "AverageLearner",
+                         "IntegratorLearner", "IntegratorLearner", "BalancingLearner:npoints", "BalancingLearner:loss"])
+        spec = I.random_spec(rng, faults=rng.random() < 0.1, cancel=True, learner=lk, log=True, big=not chk.quick,
+                             elastic_p=0.4)
+        if lk == "IntegratorLearner":
+            spec["goal"] = min(spec["goal"], 10)
         col.add(I.safe_run(col, spec, I.RandomSched(rng), f"seed{chk.seed}/{k}"), f"seed{chk.seed}/{k}")
     exh = {}
     plans = [(kind, nt, 4, 3) for kind in I.KINDS for nt in (2, 3)] if chk.quick else \
@@ -83,7 +93,7 @@ def run(chk: Check) -> int:
                       "exhaustive": False})
     chk.log(f"runs {st['runs']} (exhaustive {sum(exh.values())}), compared in Coq {st['compared_in_coq']}, "
             f"mismatches {st['mismatches']}, oracle failures {st['oracle_failures']}, "
-            f"literal-loss differences {counter['literal_loss_differs_before_discard']}")
+            f"literal-loss differences {counter['literal_loss_differs_before_discard']}, ask-0 replay failures {counter.get('ask0_entry_breaks_replay', 0)}")
     return chk.finish(
         rule="real runners with log=True under the controlled scheduler on Learner1D / SequenceLearner / AverageLearner / mock, "
              "random schedules with cancellation, plus all completion subsets for small runs; the log is replayed with "
